@@ -53,6 +53,14 @@ Theorem C03_close_accepted : forall (K : Fld) (close_tag cid : K) (pk : pkey K) 
   end.
 Proof. exact close_accepted. Qed.
 
+(** revocation bookkeeping: along any history the state a close would use is either still the same one or its lock has been
+    disclosed to the merchant (and stays so): a closing message for a superseded state is refutable, the current one is not *)
+Theorem C03_superseded_state_is_revoked : forall (K : Fld) (close_tag : K) (pk : pkey K) evs (y : sys K),
+  let y' := run close_tag pk y evs in
+  incl (sy_disclosed y) (sy_disclosed y') /\
+  (main_state K (sy_stage y') = main_state K (sy_stage y) \/ In (s_lock (main_state K (sy_stage y))) (sy_disclosed y')).
+Proof. exact superseded_state_is_revoked. Qed.
+
 Theorem C03_close_with_zero_randomiser_rejected : forall (K : Fld) (close_tag : K) (pk : pkey K) st s sig,
   close_of st f0 = Some (sig, s) -> check_close close_tag pk sig s = false.
 Proof. exact close_with_zero_randomiser_rejected. Qed.
@@ -66,3 +74,4 @@ Print Assumptions C03_inv_step.
 Print Assumptions C03_inv_reachable.
 Print Assumptions C03_close_accepted.
 Print Assumptions C03_close_with_zero_randomiser_rejected.
+Print Assumptions C03_superseded_state_is_revoked.
